@@ -203,7 +203,7 @@ FIT_OBLIGATIONS = [
     ("monodim-range", "monodim indexes the dimensions", "&&",
      [(P_("$7 - no_monodim"), "!=0"), (P_("$0.ndim - $7 - 1"), "<0")], None),
     ("penalty-vs-order", "divided_diffs: order-sized stack arrays indexed by the penalty order, division by order-(porder-1)", "leaf",
-     [(P_("$3[#] - {(($6.size()>1)?$6[#]:$6[0])}"), "<0")], ("$0.ndim",)),
+     [(P_("$3[#] - {((1<$6.size())?$6[#]:$6[0])}"), "<0")], ("$0.ndim",)),
     ("non-empty", "max_element of an empty range / strides[ndim-1]", "||",
      [(P_("$0.ndim"), "==0"), (P_("$0.rows"), "==0")], None),
 ]
@@ -310,7 +310,7 @@ def vg1(P, C):
                  "argument %d (%s) is indexed per dimension only where its element count has already been checked%s"
                  % (k, f.params[k]["name"], "" if k not in early else ": indexed at %s before the count guard — with too few elements this reads past the container" % early[k][:3]))
         # the penalty order that is checked is the expression that is passed on to the fitter
-        want = "(($6.size()>1)?$6[#]:$6[0])"
+        want = "((1<$6.size())?$6[#]:$6[0])"
         passed = [re.sub(r"\[[a-z]\w*\]", "[#]", _render_norm(f, f.args(i)[5], {p["id"]: k for k, p in enumerate(f.params)})).replace(" ", "")
                   for i, cal in f.calls() if cal and cal["name"] == "add_penalty_term"]
         C.ob("VG-1", name, "porder-passed", passed == [want], f.where(),
